@@ -254,6 +254,15 @@ func (p *blockPlan) v1Form() bool {
 	c.r.fillBytes(data)
 	payout := types.Siacoins(uint32(10 + c.r.rng.IntN(50))).Add(types.NewCurrency64(c.r.rng.Uint64N(100000)))
 	fc := types.FileContract{Filesize: uint64(size), FileMerkleRoot: naiveFileRoot(fileLeafHashes(data)), WindowStart: c.child() + uint64(c.r.rng.IntN(4)), Payout: payout, UnlockHash: c.addr1(k)}
+	if c.child()%3 == 1 {
+		// sometimes revisable only under timelocked conditions, for the boundary probes of C08
+		uc := c.uc(k)
+		uc.Timelock = c.child() + 1 + (c.child()/3)%2
+		specialUCs[uc.UnlockHash()] = ucOwner{uc, k}
+		fc.UnlockHash = uc.UnlockHash()
+		fc.WindowStart = uc.Timelock + c.child()%2
+		c.r.count("gen-v1-contract-timelocked")
+	}
 	fc.WindowEnd = fc.WindowStart + 1 + uint64(c.r.rng.IntN(4))
 	tax := c.cs().FileContractTax(fc)
 	vs := payout.Sub(tax)
@@ -393,6 +402,14 @@ func (p *blockPlan) v1Siafunds() bool {
 		txn := types.Transaction{SiafundInputs: []types.SiafundInput{{ParentID: id, UnlockConditions: c.uc(k), ClaimAddress: c.addr1((k + 1) % 3)}}}
 		if a > 0 {
 			txn.SiafundOutputs = append(txn.SiafundOutputs, types.SiafundOutput{Value: a, Address: c.addr1(c.r.rng.IntN(3))})
+			if c.child()%2 == 0 {
+				// sometimes to timelocked conditions, for the boundary probes of C08
+				uc := c.uc(k)
+				uc.Timelock = c.child() + 1 + c.child()%3
+				specialUCs[uc.UnlockHash()] = ucOwner{uc, k}
+				txn.SiafundOutputs[0].Address = uc.UnlockHash()
+				c.r.count("gen-siafunds-to-timelocked")
+			}
 		}
 		txn.SiafundOutputs = append(txn.SiafundOutputs, types.SiafundOutput{Value: e.SiafundOutput.Value - a, Address: c.addr1(k)})
 		c.signV1(&txn, map[types.Hash256]int{types.Hash256(id): k}, false)
